@@ -178,7 +178,11 @@ def build(desc: dict) -> Any:
             d = d[1:] + d[:1]
             da = da.transpose(*d)
         extra = desc.get("extra_coord")
-        if extra:
+        if extra == "sample_src":
+            # list items that each carry the same-named, equal-valued auxiliary coordinate along the sample dim
+            # (e.g. season(time) read with every file); dask-backed per item once the item is chunked (see below)
+            da = da.assign_coords({f"aux_{snames[0]}".replace(" ", "_"): (snames[0], np.arange(ssizes[0]) % 4)})
+        elif extra:
             # a non-index coordinate along the first feature dim ...
             # (the *name* of a non-index coordinate carries no blank: CF lists such coordinates blank-separated in
             #  the "coordinates" attribute, so xarray itself cannot round-trip one through any store)
@@ -224,6 +228,17 @@ def build(desc: dict) -> Any:
                    for k, o in enumerate(out)]
         else:
             out = [_chunk(o, ch, sample_dims(desc), k) for k, o in enumerate(out)]
+        if desc.get("extra_coord") == "sample_src":
+            # every item's auxiliary coordinate comes from its own source (own graph keys, as from separate files):
+            # whether two of them are equal cannot be told from the graphs
+            new = []
+            for k, o in enumerate(out):
+                an = f"aux_{snames[0]}".replace(" ", "_")
+                if an in o.coords and o.coords[an].chunks is not None:
+                    c = o.coords[an]
+                    o = o.assign_coords({an: (c.dims, c.data.map_blocks(_ident, dtype=c.dtype, token=f"auxsrc-{desc['seed']}-{k}"))})
+                new.append(o)
+            out = new
 
     if container == "da":
         return out[0]
@@ -292,6 +307,10 @@ def _chunk(da: xr.DataArray, ch: dict, sdim, k: int = 0) -> xr.DataArray:
 
 
 LOADS = [0]
+
+
+def _ident(block):
+    return block
 
 
 def _loader(block):
